@@ -1,6 +1,7 @@
 import JominiModel.Proofs.BinSkip
 import JominiModel.Proofs.SwarReader
 import JominiModel.Proofs.TextSkip
+import JominiModel.Proofs.TextSkipDoc
 /-
 C09 — Skipping a container or value lands exactly after its matching close.
 
